@@ -39,8 +39,9 @@ class SpecMixin:
         res = None
         for s1, v in reversed(outs):
             if isinstance(v, RaiseV):
-                raise SpecError(f"specification raised {v.exc.name}: "
-                                f"{text_or_ast if isinstance(text_or_ast, str) else ast.unparse(text_or_ast)}")
+                # a path on which the specification itself raises: the clause says nothing there when it is
+                # assumed (weaker assumption) and is not met there when it has to be proved
+                v = z3.BoolVal(polarity == "assume")
             delta = list(s1.pc[n:])
             if res is None:
                 res = v
@@ -173,8 +174,15 @@ class SpecMixin:
         c = self.contracts[qual]
         self.used_assumptions.add(f"contract-of:{qual}")
         alts = self.bind_params(st, f.node, args, kwargs, f.module)
+        import os
+        trace = os.environ.get("PYVC_TRACE")
         for s1, loc in alts:
-            yield from self.apply_contract(s1, c, f, loc)
+            n = 0
+            for out in self.apply_contract(s1, c, f, loc):
+                n += 1
+                yield out
+            if trace:
+                print(f"[trace] contract {qual}: {n} outcome(s); pc feasible before: {self.feasible(s1.pc)}", flush=True)
 
     def result_shape(self, c, f):
         if c.returns is not None:
@@ -223,8 +231,17 @@ class SpecMixin:
             env2["$oldenv"] = dict(env)
             if c.ghost_effect is not None:
                 post = c.ghost_effect(self, post, env2)
+            dead = False
+            n_before = len(post.pc)
             for label, text in c.ensures.items():
-                g = self.spec_bool(post, text, env2, "assume", c.spec_module)
+                try:
+                    g = self.spec_bool(post, text, env2, "assume", c.spec_module)
+                except SpecError:
+                    if not self.feasible(post.pc[:n_before], z3.And(*post.pc[n_before:]) if len(post.pc) > n_before
+                                         else None):
+                        dead = True
+                        break
+                    raise
                 for f in getattr(self, "findings", []):
                     # a clause with a recorded known finding is only assumed outside the failing region
                     if f.get("obligation") == f"{c.qual}/ensures:{label}" and f.get("region"):
@@ -232,7 +249,8 @@ class SpecMixin:
                         self.used_assumptions.add(f"known finding {f['id']}: clause {c.short}/{label} assumed only "
                                                   f"outside its failing region")
                 post = post.assume(g)
-            if self.feasible(post.pc):
+            if not dead and (len(post.pc) == n_before or self.feasible(post.pc[:n_before],
+                                                                        z3.And(*post.pc[n_before:]))):
                 yield post.with_loc(caller_loc), result
 
     def make_exc(self, name):
